@@ -458,6 +458,11 @@ func ParseTupleAndKeywords(args Tuple, kwargs StringDict, format string, kwlist 
 
 		// Unspecified args retain their default value
 		if arg == nil {
+			if i < min {
+				// the count was right but a keyword was used
+				// for a later argument instead of this one
+				return ExceptionNewf(TypeError, "%s() missing required argument '%s' (pos %d)", name, kw, i+1)
+			}
 			continue
 		}
 
